@@ -1,5 +1,6 @@
 import Tx3Proofs.C16
 import Tx3Proofs.C16Int
+import Tx3Proofs.C16Ref
 #print axioms Tx3.Json.C16_hex_roundtrip
 #print axioms Tx3.Json.C16_hexToBytes_plain
 #print axioms Tx3.Json.C16_hexToBytes_prefixed
@@ -10,3 +11,4 @@ import Tx3Proofs.C16Int
 #print axioms Tx3.Json.C16_int_decimal
 #print axioms Tx3.Json.ofBE16_toBE16
 #print axioms Tx3.Json.C16_int_hex16
+#print axioms Tx3.Json.C16_utxo_ref_roundtrip
